@@ -87,6 +87,24 @@ def run(rep, tier, driver):
         combos.append(("%s%dd%de" % (p, a, b), p, [("deoxy", (a,)), ("epimer", (b,))]))
         combos.append(("%sA%dd" % (p, a), p, [("uronic", ()), ("deoxy", (a,))]) if max(free) != a else ("%sA" % p, p, [("uronic", ())]))
         combos.append(("%s%deN" % (p, b), p, [("epimer", (b,)), ("amino", (2,))]) if 2 in free and b != 2 else ("%sN" % p, p, [("amino", (2,))]))
+    # open-form suffixes combined with a positional prefix / amine: the position is a carbon of the *parent* ('2dGlc-aric' is the
+    # 2-deoxy aldaric acid whichever end the open chain is numbered from)
+    ol_codes = [c for c in codes_p if c.upper() + "-OL" in vocab.keys_o and infos.get(c, {}).get("anomeric") == 1 and infos[c].get("cyclic")]
+    picks = [(c, suf, kind) for c in ol_codes for suf in ("-ol", "-onic", "-aric") for kind in ("d2", "d3", "d4", "e2", "e3", "e4", "N")]
+    if tier == "quick":
+        picks = rng.sample(picks, min(len(picks), 90))
+    for c, suf, kind in picks:
+        free = [n for n, e in infos[c]["free"] if e == "O"]
+        sop = {"-ol": "ol", "-onic": "onic", "-aric": "aric"}[suf]
+        if kind == "N":
+            if 2 in free:
+                combos.append(("%sN%s" % (c, suf), c, [("amino", (2,)), (sop, ())]))
+        else:
+            n = int(kind[1])
+            if kind[0] == "d" and n in free:
+                combos.append(("%dd%s%s" % (n, c, suf), c, [("deoxy", (n,)), (sop, ())]))
+            elif kind[0] == "e" and n <= infos[c]["ncarbon"]:
+                combos.append(("%de%s%s" % (n, c, suf), c, [("epimer", (n,)), (sop, ())]))
     names = sorted(set(jobs) | set(parents) | {c[0] for c in combos})
     res = dict(zip(names, pmap(_smi, names, chunk=4)))
     rep.rule = ("every library sugar (pyranose and furanose entries) x {-ol, -onic, -aric, A, n d (suffix and prefix form) for every free position, N, n e for "
